@@ -21,6 +21,7 @@ type recEnv struct {
 	gotOwn   bool // every handler that receives an error received the receiver's own error
 	hFail    bool // handler returns a failure
 	defined  bool // isDefinedAt answer
+	recvRuns int  // executions of a StateT receiver (a step positioned before the handler: exactly one per Eval)
 }
 
 func (k *recEnv) tag(err error) string {
@@ -103,7 +104,7 @@ func recvEither(succ bool) fp.Either[int, int] {
 	return fp.Left[int, int](1)
 }
 func recvStateT(k *recEnv, succ bool) fp.StateT[int, int] {
-	return func(s int) (fp.Try[int], int) { return recvTry(k, succ), s + 1 }
+	return func(s int) (fp.Try[int], int) { k.recvRuns++; return recvTry(k, succ), s + 1 }
 }
 func one(*recEnv) int { return 1 }
 func ifDefined(k *recEnv) int {
@@ -292,6 +293,10 @@ func c02Recover(r *sim.Run) {
 				desc := fmt.Sprintf("%s on a %s receiver (handler fails=%v, isDefinedAt=%v)", cs.name, map[bool]string{true: "succeeded", false: "failed"}[succ], hFail, def)
 				if pan != nil {
 					r.Violate("recover-panic", "%s panicked: %v", desc, pan)
+					return
+				}
+				if k.recvRuns > 1 {
+					r.Violate("receiver-rerun", "%s executed the receiving StateT step %d times during one Eval, want exactly once", desc, k.recvRuns)
 					return
 				}
 				if succ {
